@@ -106,6 +106,16 @@ def extra(tier, seed, stats):
         s = "".join(rnd.choice(alpha) for _ in range(5 + n % 40))
         cases_.append({"s": s, "copies": n, "type_pick": n % 4, "threads": 1 + n % 4, "entry": "arr" if n % 2 else "file",
                        "layout": {"width": 0, "eol": "\n", "final_eol": n % 4 != 0}})
+    # residue composition, enumerated: for every letter of the nucleotide / protein alphabets (ambiguity codes and wildcards
+    # included) a homopolymer and an ordinary sequence carrying a run of that letter, under every type admissible for it
+    for kind_alpha, letters in ((gen.NUC, "ACGTUNRYSWKMBDHV"), (gen.AA, gen.AA + "BZXU")):
+        for li, x in enumerate(letters):
+            rnd = random.Random(seed * 101 + li)
+            bg = "".join(rnd.choice(kind_alpha) for _ in range(30))
+            for s_ in (x * 5, x * 41, bg[:10] + x * 4 + bg[10:20] + x * 3 + bg[20:]):
+                for tp in range(4):
+                    cases_.append({"s": s_, "copies": 2 + (li + tp) % 3, "type_pick": tp, "threads": 1, "entry": "arr" if (li + tp) % 2 else "file",
+                                   "layout": {"width": 0, "eol": "\n", "final_eol": True}})
     with ThreadPoolExecutor(max_workers=12) as ex:
         res = list(ex.map(check, cases_))
     out = []
@@ -113,5 +123,6 @@ def extra(tier, seed, stats):
         stats.record(c, r)
         if r["status"] == "violation":
             out.append({"case": c, "detail": r["detail"], "kind": r.get("kind")})
-    stats.extra["sweep"] = "every string length in the length sweep and every number of copies in the count sweep (vlib/sweeps.py), enumerated"
+    stats.extra["sweep"] = ("every string length in the length sweep and every number of copies in the count sweep (vlib/sweeps.py), enumerated; "
+                            "every letter of both alphabets (16 nucleotide codes, 24 amino-acid codes) as homopolymer (5, 41) and as runs inside an ordinary sequence x every admissible type")
     return out
